@@ -399,14 +399,23 @@ void SimpleString::replace(char to, char with)
 
 void SimpleString::replace(const char* to, const char* with)
 {
-    size_t c = count(to);
-    if (c == 0) {
-        return;
-    }
     size_t len = size();
     size_t tolen = StrLen(to);
     size_t withlen = StrLen(with);
     if (tolen == 0) {
+        return;
+    }
+
+    size_t c = 0;
+    for (size_t i = 0; i < len;) {
+        if (StrNCmp(&getBuffer()[i], to, tolen) == 0) {
+            c++;
+            i += tolen;
+        }
+        else
+            i++;
+    }
+    if (c == 0) {
         return;
     }
 
